@@ -30,7 +30,7 @@ def _initial(path: str, st: dict) -> str:
 def observe(root: Path) -> dict:
     r = core.run_reuse(["--root", str(root), "--no-multiprocessing", "lint", "--json"])
     if r["exc"] or r["exit"] not in (0, 1):
-        return {"info": {}, "present": [], "missing": [], "unused": [], "nocop": [], "nolic": [], "failed": (r["exc"] or r["err"])[-200:]}
+        return {"info": {}, "present": [], "glob": "none", "missing": [], "unused": [], "nocop": [], "nolic": [], "failed": (r["exc"] or r["err"])[-200:]}
     rep = json.loads(r["out"])
     info = {}
     for f in rep["files"]:
@@ -43,7 +43,9 @@ def observe(root: Path) -> dict:
             return Path(x).resolve().relative_to(root.resolve()).as_posix() if Path(x).is_absolute() else Path(x).as_posix()
         except ValueError:
             return x
-    return {"info": info, "present": present, "missing": sorted(nc["missing_licenses"]), "unused": sorted(nc["unused_licenses"]),
+    has_dep5, has_toml = (root / ".reuse" / "dep5").is_file(), (root / "REUSE.toml").is_file()
+    glob = "both" if has_dep5 and has_toml else "dep5" if has_dep5 else "toml" if has_toml else "none"
+    return {"info": info, "present": present, "glob": glob, "missing": sorted(nc["missing_licenses"]), "unused": sorted(nc["unused_licenses"]),
             "nocop": sorted(rel(x) for x in nc["missing_copyright_info"]), "nolic": sorted(rel(x) for x in nc["missing_licensing_info"]),
             "other": sorted(k for k in ("bad_licenses", "deprecated_licenses", "licenses_without_extension", "read_errors") if nc[k])}
 
@@ -61,6 +63,8 @@ def command_line(root: Path, c: dict, rnd=None) -> list:
         return [*base, "download", *c["lic"]]
     if k == "download-all":
         return [*base, "--no-multiprocessing", "download", "--all"]
+    if k == "convert-dep5":
+        return [*base, "convert-dep5"]
     if k == "annotate":
         o = []
         if c["cop"]:
@@ -82,6 +86,16 @@ def run_case(case: dict) -> list:
             p = root / f
             p.parent.mkdir(parents=True, exist_ok=True)
             p.write_text(_initial(f, st))
+        if case.get("glob") == "dep5":
+            (root / ".reuse").mkdir(parents=True, exist_ok=True)
+            (root / ".reuse" / "dep5").write_text(
+                "Format: https://www.debian.org/doc/packaging-manuals/copyright-format/1.0/\nUpstream-Name: wf\n\n"
+                "Files: docs/*\nCopyright: 2005 Dep Five\nLicense: 0BSD\n")
+        elif case.get("glob") == "toml":
+            root.mkdir(parents=True, exist_ok=True)
+            (root / "REUSE.toml").write_text(
+                'version = 1\n\n[[annotations]]\npath = "docs/**"\nprecedence = "aggregate"\n'
+                'SPDX-FileCopyrightText = "2005 Dep Five"\nSPDX-License-Identifier = "0BSD"\n')
         if case["present"]:
             (root / "LICENSES").mkdir(parents=True, exist_ok=True)
         for x in case["present"]:
@@ -128,12 +142,15 @@ def stage(ctx: core.Ctx, prefixes: tuple, tid0: int = 500000) -> dict:
     mc = ctx.mc("Workflow", "MC_Workflow.cfg")
     viol = [{"clause": f"model:{v}", "kf": "", "detail": mc["out"][-2000:]} for v in mc["violated"]]
     if not q:
+        for cfg in ("MC_Workflow_big.cfg",):
+            mcb = ctx.mc("Workflow", cfg)
+            viol += [{"clause": f"model:{v}", "kf": "", "detail": mcb["out"][-2000:]} for v in mcb["violated"]]
         mc2 = ctx.mc("Workflow", "MC_Workflow_deep.cfg")
         viol += [{"clause": f"model:{v}", "kf": "", "detail": mc2["out"][-2000:]} for v in mc2["violated"]]
     bs = behaviours(ctx, 150 if q else 2000, 5)
-    cases = [{"tid": tid0 + i, "info": b["info"], "present": b["present"], "hist": b["hist"],
+    cases = [{"tid": tid0 + i, "info": b["info"], "present": b["present"], "glob": b["glob"], "hist": b["hist"],
               "label": json.dumps({"workflow": [[h["cmd"]["kind"], h["cmd"]["files"], h["cmd"]["cop"], h["cmd"]["lic"]] for h in b["hist"]],
-                                   "start": [b["info"], b["present"]]})} for i, b in enumerate(bs)]
+                                   "start": [b["info"], b["present"], b["glob"]]})} for i, b in enumerate(bs)]
     evl = ctx.pmap(run_case, cases, chunksize=4, daemon=False)
     events = [e for es in evl for e in es]
     before = len(ctx.rejects)
@@ -147,7 +164,8 @@ def stage(ctx: core.Ctx, prefixes: tuple, tid0: int = 500000) -> dict:
     ctx.rejects[before:] = mine
     # the model's own prediction of the exit status is part of the behaviour TLC printed: cross-check the replay
     ctx.notes["workflow"] = {"behaviours": len(cases), "commands": len(events), "rejections_by_other_properties_clauses": foreign,
-                             "kinds": {k: sum(1 for e in events if e["cmd"]["kind"] == k) for k in ("annotate", "download", "download-all", "lint", "spdx")},
+                             "kinds": {k: sum(1 for e in events if e["cmd"]["kind"] == k) for k in ("annotate", "download", "download-all", "lint", "spdx", "convert-dep5")},
+                             "convert_exit_0": sum(1 for e in events if e["cmd"]["kind"] == "convert-dep5" and e["exit"] == 0),
                              "lint_exit_0": sum(1 for e in events if e["cmd"]["kind"] == "lint" and e["exit"] == 0),
                              "download_exit_1": sum(1 for e in events if e["cmd"]["kind"] == "download" and e["exit"] == 1)}
     return {"events": events, "mc_violations": viol}
